@@ -15,18 +15,32 @@ ALLOWED = ["0", "1", "2.5", "-1", "1e3", "10", "3.", "007", "min", "max", "mean"
 BAD = ["", "median", "Mean", "mean-std", "(min)", "^", "x", "sin", "1+2", "min,", "MAX", "std)", "2,5", "__import__", "pi"]
 
 
-def num_text(v):
+def num_text(v, style=0):
+    """decimal text of a rational; style varies the spelling (exponent, trailing dot, leading zeros)"""
     n, d = v
     f = Fraction(n, d)
     if f.denominator == 1:
-        return str(f.numerator)
+        k = f.numerator
+        if style == 1 and k >= 10 and k % 10 == 0:
+            return "%de1" % (k // 10)
+        if style == 2:
+            return "%d." % k
+        if style == 3 and k >= 0:
+            return "0%d" % k
+        return str(k)
+    if style == 1:
+        return ("%e" % float(f)).replace("e-0", "e-").replace("e+0", "e+")
     return repr(float(f))
+
+
+STYLE = [0]
 
 
 def tok_text(t):
     k = t["k"]
     if k == "num":
-        return num_text(t["v"])
+        txt = num_text(t["v"], STYLE[0])
+        return txt if Fraction(txt) == Fraction(*t["v"]) else num_text(t["v"], 0)
     if k in ("stat", "id", "op"):
         return t["s"]
     return "(" if k == "lp" else ")"
@@ -177,10 +191,12 @@ def check(ctx):
         elif c < 0.2:
             s.eval(r.choice(idents), stats)
         else:
+            STYLE[0] = r.choice([0, 0, 0, 1, 2, 3])
             ex = rand_expr(r, r.choice([1, 2, 3, 3, 4]), atoms)
             s.eval(ex, stats, compact=r.random() < 0.3)
             recent.append((ex, stats))
             del recent[:-12]
+            STYLE[0] = 0
         if recent and r.random() < 0.3:
             # A ... B ... A again: an earlier expression re-evaluated later, with the same and with other statistics
             ex, st0 = r.choice(recent)
